@@ -293,3 +293,195 @@ Qed.
     are then the same value of Coq's total division) *)
 Theorem gf_conj_symmetry : forall D i j z, Cconj (G D i j z) = G D j i (Cconj z).
 Proof. intros D i j z. unfold G. now rewrite lehmann_conj, conj_gterms. Qed.
+
+(** * gf_tail: z G(z) -> sum of residues, with an explicit bound *)
+
+Lemma Cmod_minus_ge : forall (z : C) (P Pmax : R), Rabs P <= Pmax -> Cmod z - Pmax <= Cmod (z - RtoC P)%C.
+Proof.
+  intros z P Pmax HP.
+  assert (H : Cmod z <= Cmod (z - RtoC P)%C + Cmod (RtoC P)).
+  { replace z with ((z - RtoC P) + RtoC P)%C at 1 by ring. apply Cmod_triangle. }
+  rewrite Cmod_R in H. lra.
+Qed.
+
+Lemma term_tail : forall (t : term) (z : C) (Pmax : R),
+  Rabs (snd t) <= Pmax -> Pmax < Cmod z ->
+  Cmod (z * term_z t z - fst t)%C <= Cmod (fst t * RtoC (snd t))%C / (Cmod z - Pmax).
+Proof.
+  intros [Rs P] z Pmax HP Hz. rewrite term_z_eq. simpl fst in *; simpl snd in *.
+  pose proof (Cmod_minus_ge z P Pmax HP) as Hge.
+  assert (Hpos : 0 < Cmod (z - RtoC P)%C) by lra.
+  assert (Hne : (z - RtoC P)%C <> RtoC 0).
+  { intros E. rewrite E, Cmod_0 in Hpos. lra. }
+  replace (z * (Rs / (z - RtoC P)) - Rs)%C with ((Rs * RtoC P) / (z - RtoC P))%C by (field; exact Hne).
+  rewrite Cmod_div by exact Hne.
+  unfold Rdiv. apply Rmult_le_compat_l; [apply Cmod_ge_0|].
+  apply Rinv_le_contravar; lra.
+Qed.
+
+(** plain form *)
+Theorem lehmann_tail : forall (l : list term) (z : C) (Pmax : R),
+  (forall t, In t l -> Rabs (snd t) <= Pmax) -> Pmax < Cmod z ->
+  Cmod (z * lehmann l z - residue_sum l)%C <=
+  rsum (map (fun t => Cmod (fst t * RtoC (snd t))%C) l) / (Cmod z - Pmax).
+Proof.
+  intros l z Pmax HP Hz. unfold lehmann, residue_sum.
+  replace (z * csum (map (fun t => term_z t z) l) - csum (map fst l))%C
+    with (csum (map (fun t => (z * term_z t z - fst t)%C) l)).
+  2:{ unfold Cminus. rewrite csum_map_plus, csum_map_scal, csum_map_opp. reflexivity. }
+  eapply Rle_trans; [apply Cmod_csum_le|]. rewrite map_map.
+  unfold Rdiv. rewrite Rmult_comm, <- rsum_map_scal.
+  apply rsum_map_le. intros t Ht. rewrite Rmult_comm. apply term_tail; [now apply HP | exact Hz].
+Qed.
+
+(** the sum of the residues of the structured data is the anticommutator expectation value *)
+Lemma in_gterms : forall D i j t, In t (gterms D i j) ->
+  exists n m, (n < dim D)%nat /\ (m < dim D)%nat /\ t = (residue D i j n m, pole D n m).
+Proof.
+  intros D i j t H. unfold gterms in H. apply in_flat_map in H. destruct H as [n [Hn H]].
+  apply in_map_iff in H. destruct H as [m [Ht Hm]]. apply in_seq in Hn. apply in_seq in Hm.
+  exists n, m. repeat split; try lia. now symmetry.
+Qed.
+
+Lemma gterms_in : forall D i j n m, (n < dim D)%nat -> (m < dim D)%nat ->
+  In (residue D i j n m, pole D n m) (gterms D i j).
+Proof.
+  intros D i j n m Hn Hm. unfold gterms. apply in_flat_map. exists n. split; [apply in_seq; lia|].
+  apply in_map_iff. exists m. split; [reflexivity | apply in_seq; lia].
+Qed.
+
+Lemma sum_over_gterms : forall D i j (g : term -> C),
+  csum (map g (gterms D i j)) =
+  csum (map (fun n => csum (map (fun m => g (residue D i j n m, pole D n m)) (seq 0 (dim D)))) (seq 0 (dim D))).
+Proof.
+  intros D i j g. unfold gterms. rewrite csum_flat_map. apply csum_map_ext_in. intros n _. now rewrite map_map.
+Qed.
+
+Theorem residue_sum_is_delta : forall D i j,
+  car_diag D i j -> weights_normalised D -> residue_sum (gterms D i j) = delta i j.
+Proof.
+  intros D i j Hcar Hw. unfold residue_sum. rewrite sum_over_gterms. simpl fst.
+  set (d := dim D). set (a := fun n m => (cop D i n m * Cconj (cop D j n m))%C).
+  transitivity (csum (map (fun n => csum (map (fun m => (RtoC (wn D n) * a n m + RtoC (wn D m) * a n m)%C) (seq 0 d))) (seq 0 d))).
+  { apply csum_map_ext_in; intros n _. apply csum_map_ext_in; intros m _.
+    unfold residue, a. rewrite RtoC_plus. ring. }
+  transitivity (csum (map (fun n => (csum (map (fun m => (RtoC (wn D n) * a n m)%C) (seq 0 d)) +
+                                    csum (map (fun m => (RtoC (wn D m) * a n m)%C) (seq 0 d)))%C) (seq 0 d))).
+  { apply csum_map_ext_in; intros n _. apply csum_map_plus. }
+  rewrite csum_map_plus.
+  rewrite (csum_swap (fun n m => (RtoC (wn D m) * a n m)%C)).
+  rewrite <- csum_map_plus.
+  transitivity (csum (map (fun n => (RtoC (wn D n) * delta i j)%C) (seq 0 d))).
+  { apply csum_map_ext_in; intros n Hn. apply in_seq in Hn.
+    rewrite !csum_map_scal, <- Cmult_plus_distr_l. f_equal.
+    rewrite <- (Hcar n) by (unfold d in Hn; lia). unfold a. fold d. f_equal.
+    apply csum_map_ext_in; intros m _. ring. }
+  rewrite <- (map_map (fun n => RtoC (wn D n)) (fun x => (x * delta i j)%C)).
+  replace (csum (map (fun x : C => (x * delta i j)%C) (map (fun n => RtoC (wn D n)) (seq 0 d))))
+    with (delta i j * csum (map (fun n => RtoC (wn D n)) (seq 0 d)))%C.
+  2:{ rewrite <- csum_map_scal, map_map. apply csum_map_ext_in; intros; ring. }
+  rewrite <- (map_map (wn D) RtoC), csum_RtoC. unfold weights_normalised in Hw. fold d in Hw. rewrite Hw. ring.
+Qed.
+
+(** gf_tail: |z G_ij(z) - delta_ij| <= sum |R P| / (|z| - max|P|)  for |z| > max|P| *)
+Theorem gf_tail : forall D i j (z : C) (Pmax : R),
+  car_diag D i j -> weights_normalised D ->
+  (forall n m, (n < dim D)%nat -> (m < dim D)%nat -> Rabs (pole D n m) <= Pmax) -> Pmax < Cmod z ->
+  Cmod (z * G D i j z - delta i j)%C <=
+  rsum (map (fun t => Cmod (fst t * RtoC (snd t))%C) (gterms D i j)) / (Cmod z - Pmax).
+Proof.
+  intros D i j z Pmax Hcar Hw HP Hz. rewrite <- (residue_sum_is_delta D i j Hcar Hw).
+  apply lehmann_tail; [|exact Hz].
+  intros t Ht. apply in_gterms in Ht. destruct Ht as [n [m [Hn [Hm ->]]]]. simpl. now apply HP.
+Qed.
+
+(** consequence in the usual form: z G_ij(z) -> delta_ij as |z| -> infinity *)
+Corollary gf_tail_limit : forall D i j, car_diag D i j -> weights_normalised D ->
+  forall eps, 0 < eps -> exists Rad, forall z : C, Rad < Cmod z -> Cmod (z * G D i j z - delta i j)%C < eps.
+Proof.
+  intros D i j Hcar Hw eps Heps.
+  set (Pmax := rsum (map (fun t => Rabs (snd t)) (gterms D i j))).
+  set (S := rsum (map (fun t => Cmod (fst t * RtoC (snd t))%C) (gterms D i j))).
+  assert (HS : 0 <= S) by (apply rsum_map_nonneg; intros; apply Cmod_ge_0).
+  assert (HPm : forall t, In t (gterms D i j) -> Rabs (snd t) <= Pmax).
+  { unfold Pmax. generalize (gterms D i j). induction l as [|a l IH]; intros t Ht; [destruct Ht|].
+    simpl. assert (0 <= rsum (map (fun t => Rabs (snd t)) l)) by (apply rsum_map_nonneg; intros; apply Rabs_pos).
+    destruct Ht as [->|Ht]; [lra|]. specialize (IH t Ht). pose proof (Rabs_pos (snd a)). lra. }
+  exists (Pmax + S / eps + 1). intros z Hz.
+  assert (Hq : 0 <= S / eps) by (apply Rmult_le_pos; [exact HS | left; now apply Rinv_0_lt_compat]).
+  eapply Rle_lt_trans.
+  { apply (gf_tail D i j z Pmax Hcar Hw); [|lra].
+    intros n m Hn Hm. apply (HPm (residue D i j n m, pole D n m)). now apply gterms_in. }
+  fold S. apply Rlt_div_l; [lra|].
+  assert (S / eps < Cmod z - Pmax) by lra.
+  apply Rlt_div_l in H; [|exact Heps]. lra.
+Qed.
+
+(** * gf_im_negative *)
+Lemma term_im : forall (a P om : R), 0 < om ->
+  Im (term_z (RtoC a, P) (0, om)) = - om * (a / (om ^ 2 + P ^ 2)).
+Proof.
+  intros a P om Hom. rewrite term_z_eq. simpl fst; simpl snd.
+  unfold Cdiv, Cinv, Cminus, Cmult, Cplus, Copp, RtoC, Im; simpl.
+  field. repeat split; nra.
+Qed.
+
+(** plain form: Im G(i om) = - om sum_k R_k / (om^2 + P_k^2) for real residues *)
+Theorem lehmann_im_formula : forall (l : list term) (om : R),
+  (forall t, In t l -> Im (fst t) = 0) -> 0 < om ->
+  Im (lehmann l (0, om)) = - om * rsum (map (fun t => Re (fst t) / (om ^ 2 + (snd t) ^ 2)) l).
+Proof.
+  intros l om Hre Hom. unfold lehmann. rewrite csum_Im, map_map, <- rsum_map_scal.
+  apply rsum_map_ext_in. intros [[a b] P] Ht. specialize (Hre _ Ht). simpl in Hre. subst b.
+  simpl fst; simpl snd. now apply term_im.
+Qed.
+
+Theorem lehmann_im_negative : forall (l : list term) (om : R),
+  nonneg_residues l -> (exists t, In t l /\ 0 < Re (fst t)) -> 0 < om -> Im (lehmann l (0, om)) < 0.
+Proof.
+  intros l om Hnn Hex Hom.
+  rewrite lehmann_im_formula; [| intros t Ht; apply (Hnn t Ht) | exact Hom].
+  assert (0 < rsum (map (fun t : term => Re (fst t) / (om ^ 2 + snd t ^ 2)) l)).
+  { apply rsum_map_pos.
+    - intros t Ht. apply Rmult_le_pos; [apply (Hnn t Ht)|]. left. apply Rinv_0_lt_compat. nra.
+    - destruct Hex as [t [Ht Hpos]]. exists t. split; [exact Ht|].
+      apply Rmult_lt_0_compat; [exact Hpos|]. apply Rinv_0_lt_compat. nra. }
+  set (S := rsum _) in *. clearbody S. nra.
+Qed.
+
+Lemma residue_diag : forall D i n m,
+  residue D i i n m = RtoC ((Cmod (cop D i n m)) ^ 2 * (wn D n + wn D m)).
+Proof.
+  intros D i n m. unfold residue. destruct (cop D i n m) as [a b].
+  assert (Hm : (Cmod (a, b)) ^ 2 = a * a + b * b).
+  { unfold Cmod. simpl fst; simpl snd. rewrite <- Rsqr_pow2, Rsqr_sqrt; nra. }
+  rewrite Hm. unfold Cconj, Cmult, RtoC; simpl. f_equal; ring.
+Qed.
+
+Lemma diag_residues_nonneg : forall D i, weights_nonneg D -> nonneg_residues (gterms D i i).
+Proof.
+  intros D i Hw t Ht. apply in_gterms in Ht. destruct Ht as [n [m [Hn [Hm ->]]]]. simpl fst.
+  rewrite residue_diag. simpl. split; [reflexivity|].
+  apply Rmult_le_pos; [apply pow2_ge_0|]. pose proof (Hw n Hn). pose proof (Hw m Hm). lra.
+Qed.
+
+(** Im G_ii(i om) < 0 for om > 0 (non-negative weights, some transition with positive weight) *)
+Theorem gf_im_negative : forall D i (om : R),
+  weights_nonneg D ->
+  (exists n m, (n < dim D)%nat /\ (m < dim D)%nat /\ cop D i n m <> RtoC 0 /\ 0 < wn D n + wn D m) ->
+  0 < om -> Im (G D i i (0, om)) < 0.
+Proof.
+  intros D i om Hw [n [m [Hn [Hm [Hc Hpos]]]]] Hom. unfold G.
+  apply lehmann_im_negative; [now apply diag_residues_nonneg | | exact Hom].
+  exists (residue D i i n m, pole D n m). split; [now apply gterms_in|].
+  simpl fst. rewrite residue_diag. simpl.
+  apply Rmult_lt_0_compat; [|exact Hpos]. pose proof (proj1 (Cmod_gt_0 _) Hc). nra.
+Qed.
+
+(** and the formula itself on the diagonal *)
+Theorem gf_im_formula : forall D i (om : R), 0 < om ->
+  Im (G D i i (0, om)) = - om * rsum (map (fun t => Re (fst t) / (om ^ 2 + (snd t) ^ 2)) (gterms D i i)).
+Proof.
+  intros D i om Hom. unfold G. apply lehmann_im_formula; [|exact Hom].
+  intros t Ht. apply in_gterms in Ht. destruct Ht as [n [m [_ [_ ->]]]]. simpl fst. now rewrite residue_diag.
+Qed.
